@@ -78,7 +78,7 @@ def facts_of_case(case):
 # ---------------------------------------------------------------------------
 # cast oracle
 # ---------------------------------------------------------------------------
-CAST_OPS = ["multiply3", "power3", "aspolynomial_names",
+CAST_OPS = ["multiply_out", "multiply3", "power3", "aspolynomial_names",
             "from_data", "dtype_request", "aspolynomial", "aspolynomial_poly", "from_attributes",
             "from_attributes_mixed", "dict_mixed", "variable", "symbols", "astype", "add", "subtract",
             "multiply", "power", "getitem", "reshape", "transpose", "concatenate", "stack", "where",
@@ -243,6 +243,27 @@ def run_cast_case(case, ctx):
                 ab = numpy.multiply(a, b)
                 want = {(0,): ab, (1,): ab, (2,): ab, (3,): ab}
                 check_terms(ctx, facts, case, got, want, res_dtype, "multiply of dtypes")
+            elif op == "multiply_out":
+                # explicit output polynomial of dtype T, pre-filled with a sentinel
+                # only casts numpy calls "same kind" (narrowing within a kind, or widening):
+                # there casting before or after the product gives the same exact values
+                if S == "bool" or T == "bool" or not numpy.can_cast(S, T, "same_kind"):
+                    return
+                a = (a + 1).astype(S)
+                b = (b + 1).astype(S)
+                x1 = numpoly.polynomial_from_attributes([[1, 0]], [a], names=("q0", "q1"),
+                                                        retain_coefficients=True)
+                x2 = numpoly.polynomial_from_attributes([[0, 1]], [b], names=("q0", "q1"),
+                                                        retain_coefficients=True)
+                fill = numpy.full(a.shape, 77).astype(T)
+                out = numpoly.polynomial_from_attributes([[1, 1]], [fill], names=("q0", "q1"), dtype=T)
+                res = numpoly.multiply(x1, x2, out=out)
+                expected = numpy.empty(a.shape, dtype=T)
+                numpy.multiply(a, b, out=expected, casting="unsafe")
+                if res is not out:
+                    ctx.violation(dict(facts, failure="type"), "multiply(out=) did not return out", case)
+                    return
+                check_terms(ctx, facts, case, res, {(1, 1): expected}, T, "multiply(x1, x2, out=out)")
             elif op == "multiply3":
                 # three-term operands: several products land on the same exponent
                 if res_dtype == numpy.dtype(bool):
